@@ -28,7 +28,8 @@ RULE = ("job = seed -> (scenario: version x flavour x options; op script: "
         "and at least one perturbation actually fired"
         ' closeSocket=False (bidirectional close) is a scenario dimension.'
         ' sync mode goes through the blocking entry points (handshakeServer, handshakeClient*(async_=False)); the server may be told the name it serves (sni).'
-        ' Generator protocol: an operation yields at most one result value.')
+        ' Generator protocol: an operation yields at most one result value.'
+        " Mode twin: two connections of the same scenario live in one process, all senders fragment (recordSize 64), perturbed transports and random interleaving; connection A's outcomes, negotiated parameters and data must equal its solo run.")
 LEVEL_TEXT = ("Seeded search over transport schedules: every run compares a "
               "perturbed execution (random recv/send sizes, would-blocks, "
               "delivery delays, step order, 1-byte I/O, blocking API on "
@@ -45,6 +46,7 @@ CHUNK = 4
 PROBES = ["short_recv", "partial_send", "wouldblock_recv", "wouldblock_send",
           "delay", "hs_failed_both", "closed_by_peer", "mode_sync",
           "mode_asm", "mode_reframe", "mode_byte", "mode_chunk", "hrr",
+          "mode_twin",
           "wouldblock_mid_record"]
 COMPONENTS_REAL = ["tlslite.* (handshake state machines, record layer, "
                    "BufferedSocket, Defragmenter, AsyncStateMachine, "
@@ -60,7 +62,8 @@ ASSUMPTIONS = [
     "a peer that has closed its socket still lets our writes succeed (no RST "
     "is synthesised in this check; transport failures are C17)"]
 
-MODES = ["chunk", "byte", "sync", "asm", "reframe", "chunk", "reframe"]
+MODES = ["chunk", "byte", "sync", "asm", "reframe", "chunk", "reframe",
+         "twin"]
 
 
 def plan(tier, base_seed):
@@ -181,6 +184,69 @@ def execute(seed, sc, script, mode, chooser):
     return tr
 
 
+def execute_twin(seed, sc, script, chooser, solo):
+    """Two connections of the same scenario live in ONE process and are
+    stepped in a random interleaving; every sender fragments its messages
+    (recordSize 64), so half-received handshake messages are buffered all the
+    time.  Connection A (same names, same entropy as the solo run) must
+    behave exactly as if it were alone."""
+    sim = nodes.new_run(seed, chooser=chooser, max_steps=800000,
+                        sched="first" if solo else "random")
+    pol = "ideal" if solo else "random"
+    pairs = [nodes.Pair(sim, sc, policy=pol, wb_budget=kernel.Budget(40),
+                        delay_budget=kernel.Budget(40))]
+    if not solo:
+        pairs.append(nodes.Pair(sim, sc, policy=pol, names=("c2", "s2"),
+                                wb_budget=kernel.Budget(40),
+                                delay_budget=kernel.Budget(40)))
+    for p in pairs:
+        p.c.conn.recordSize = 64
+        p.s.conn.recordSize = 64
+    outs = [(p.c.start(("handshake", "client"), p.client_gen(None)),
+             p.s.start(("handshake", "server"), p.server_gen(None)))
+            for p in pairs]
+    st = sim.run()
+    oc, os_ = outs[0]
+    tr = {"hs": [oc.sig(), os_.sig()], "status": [st], "ops": {"c": [],
+                                                               "s": []}}
+    pair = pairs[0]
+    tr["view_c"] = views.view(pair.c.conn) if oc.kind == "ok" else None
+    tr["view_s"] = views.view(pair.s.conn) if os_.kind == "ok" else None
+    if all(o.kind == "ok" for pr in outs for o in pr) and st == "idle":
+        eps = {"c": pair.c, "s": pair.s}
+        scr = list(script)
+        if not solo:
+            eps.update({"c2": pairs[1].c, "s2": pairs[1].s})
+            scr = scr + [[o[0] + "2"] + o[1:] for o in script]
+        st = sim_script.run_script(sim, eps, scr, lambda ep, op: op_gen(
+            ep, op) if not ep.name.endswith("2") else op_gen2(ep, op))
+        tr["status"].append(st)
+        for w in "cs":
+            tr["ops"][w] = [o.sig() for o in eps[w].history[1:]]
+    # the two servers share their key objects (as servers do), so which of
+    # them creates the RSA blinding pair - and with it the position in its
+    # entropy stream - depends on the interleaving: random values on the wire
+    # are not comparable, outcomes, negotiated parameters and data are
+    for k_ in ("view_c", "view_s"):
+        if tr[k_]:
+            tr[k_] = {f: tr[k_].get(f) for f in (
+                "version", "suite", "cipher_name", "resumed", "ems", "etm",
+                "alpn", "sni", "server_chain", "client_chain", "srp_user",
+                "send_limit", "recv_limit", "closed")}
+    tr["_sim"] = sim
+    tr["_pair"] = pair
+    sim.stats["twin_interleaved"] = 0 if solo else 1
+    return tr
+
+
+def op_gen2(ep, op):
+    conn = ep.conn
+    if op[1] == "write":
+        data = scen.payload(1 if ep.name == "c2" else 2, op[2], op[3])
+        return lambda: conn.writeAsync(data)
+    return op_gen(ep, op)
+
+
 def comparable(tr):
     return {k: v for k, v in tr.items() if not k.startswith("_")}
 
@@ -226,9 +292,15 @@ def run(job, streams=None):
         sc["cset"]["cipherNames"] = ["aes128"]
         sc["sset"]["cipherNames"] = ["aes256"]
     script = draw_script(ch, sc, mode)
-    ref = execute(seed, sc, script, "ideal", kernel.Chooser(streams={}))
-    refc = json.loads(json.dumps(comparable(ref), default=str))
-    got = execute(seed, sc, script, mode, ch)
+    if mode == "twin":
+        ref = execute_twin(seed, sc, script, kernel.Chooser(streams={}),
+                           True)
+        refc = json.loads(json.dumps(comparable(ref), default=str))
+        got = execute_twin(seed, sc, script, ch, False)
+    else:
+        ref = execute(seed, sc, script, "ideal", kernel.Chooser(streams={}))
+        refc = json.loads(json.dumps(comparable(ref), default=str))
+        got = execute(seed, sc, script, mode, ch)
     gotc = json.loads(json.dumps(comparable(got), default=str))
     viol = []
     d = first_diff(refc, gotc)
@@ -268,7 +340,7 @@ def run(job, streams=None):
                 if k in ("short_recv", "partial_send", "wouldblock_recv",
                          "wouldblock_send", "delay", "partial_delivery",
                          "reframe_split", "reframe_merge", "thread_switch",
-                         "asm_event")) + (1 if mode == "byte" else 0)
+                         "asm_event", "twin_interleaved")) + (1 if mode == "byte" else 0)
     probes = {"mode_" + mode: 1}
     for k in ("short_recv", "partial_send", "wouldblock_recv",
               "wouldblock_send", "delay"):
